@@ -14,7 +14,7 @@ loads the composed document (real files, real packages) and the expansion
 objects must equal the specification's, and every text of the schema's
 vocabulary (all single lines, random texts up to 7 lines) must give the same
 outcome - value tree or rejection - against both.
-Finally the six composed worlds themselves are given to the loader
+Finally the eight composed worlds themselves are given to the loader
 specification (ZLoad, as in C01/C02): TLC feeds every text over each world's
 vocabulary up to the line bound and every behaviour is replayed on the
 composed schema (accept / reject and value tree) - the schema-language and the
@@ -146,7 +146,42 @@ def worlds():
         N("sectiontype", {"name": "t3", "extends": "t2", "implements": "abs1"}, []),
         N("multisection", {"type": "abs1", "name": "+", "attribute": "impls"})])
     out.append(("main.xml", {"main.xml": main, "b1.xml": b1, "b2.xml": b2}, {("zcvsd_c", "component.xml"): cc2}))
+    # 7 components that import each other: A declares the abstract type, imports B and goes on; B imports A
+    #   (already being read: nothing happens) and implements A's abstract type; the schema names both, B first
+    ca3 = N("component", {}, [
+        N("abstracttype", {"name": "cabs"}),
+        N("import", {"package": "zcvsd_b"}),
+        N("sectiontype", {"name": "ca1", "implements": "cabs"}, [N("key", {"name": "ka", "default": "a"})])])
+    cb3 = N("component", {}, [
+        N("import", {"package": "zcvsd_a"}),
+        N("sectiontype", {"name": "cb1", "implements": "cabs"}, [N("key", {"name": "kb", "datatype": "integer"})]),
+        N("import", {"package": "zcvsd_a", "file": "component.xml"})])
+    main = N("schema", {}, [
+        N("import", {"package": "zcvsd_a"}),
+        N("import", {"package": "zcvsd_b"}),
+        N("sectiontype", {"name": "mine", "extends": "cb1", "implements": "cabs"}, [N("key", {"name": "mk"})]),
+        N("multisection", {"type": "cabs", "name": "*", "attribute": "impls"})])
+    out.append(("main.xml", {"main.xml": main},
+                {("zcvsd_a", "component.xml"): ca3, ("zcvsd_b", "component.xml"): cb3}))
+    # 8 what a derived type inherits besides keys: wildcard-named sections (no key of their own, only an attribute),
+    #   down a chain of two; the written-out type must carry them first and reserve their attributes all the same
+    main = N("schema", {}, [
+        N("sectiontype", {"name": "leaf"}, [N("key", {"name": "v"})]),
+        N("sectiontype", {"name": "base"}, [
+            N("multisection", {"type": "leaf", "name": "*", "attribute": "items"}),
+            N("section", {"type": "leaf", "name": "+", "attribute": "named"}),
+            N("key", {"name": "k-one", "attribute": "first"})]),
+        N("sectiontype", {"name": "mid", "extends": "base"}, [N("key", {"name": "k2"})]),
+        N("sectiontype", {"name": "top", "extends": "mid", "keytype": "identifier"}, [
+            N("multikey", {"name": "m3"}), N("section", {"type": "leaf", "name": "*", "attribute": "more"})]),
+        N("multisection", {"type": "top", "name": "*", "attribute": "tops"}),
+        N("section", {"type": "mid", "name": "*", "attribute": "amid"})])
+    out.append(("main.xml", {"main.xml": main}, {}))
     return out
+
+
+def quick_cap(cap_f):
+    return cap_f < 1000
 
 
 def scenarios(seed, quick):
@@ -172,7 +207,14 @@ def scenarios(seed, quick):
             ef = list(sd.edits(base))
             for lab, t in (rng.sample(eb, cap_b) if len(eb) > cap_b else eb):
                 put(lab, t)
-            for lab, t in (rng.sample(ef, cap_f) if len(ef) > cap_f else ef):
+            # edits whose value comes from the document itself (a sibling's or an inherited item's name or
+            # attribute) are the ones that probe what a composition feature hands down: all of them, always
+            derived = [(lab, t) for lab, t in ef if lab.startswith("set! ") and ("@attribute=" in lab or "@name=" in lab)]
+            rest = [(lab, t) for lab, t in ef if (lab, t) not in derived] if len(ef) < 4000 else ef
+            derived.sort(key=lambda e: "@attribute=" not in e[0])     # attributes first (stable)
+            for lab, t in derived[:90] if quick_cap(cap_f) else derived:
+                put(lab, t)
+            for lab, t in (rng.sample(rest, cap_f) if len(rest) > cap_f else rest):
                 put(lab, t)
             for _ in range(pairs):
                 l1, t1 = rng.choice(eb)
@@ -334,7 +376,7 @@ def run(chk):
     quick = chk.tier == "quick"
     items = scenarios(chk.seed, quick)
     N_RANDOM["n"] = 40 if quick else 200
-    chk.rule = ("six composed worlds (extends chain of 3 with two key-type overrides and '+' defaults; absolute and "
+    chk.rule = ("eight composed worlds (extends chain of 3 with two key-type overrides and '+' defaults; absolute and "
                 "relative prefixes at two levels; three base schemas one of which has its own base; diamond-shaped "
                 "component imports with repeated imports; import/@src with a relative package name; base schemas "
                 "importing one component along two paths), every single generic edit of each of their documents "
